@@ -20,9 +20,13 @@ pub enum Variant {
 #[derive(Debug)]
 pub enum VariantError {
     DivisionByZero,
+    OutOfStringSpace,
     Overflow,
     TypeMismatch,
 }
+
+/// The maximum length of a string.
+pub const MAX_STRING_LENGTH: usize = 32767;
 
 pub const V_TRUE: Variant = Variant::VInteger(-1);
 pub const V_FALSE: Variant = Variant::VInteger(0);
@@ -231,7 +235,13 @@ impl Variant {
                 _ => other.plus(self),
             },
             Self::VString(s_left) => match other {
-                Self::VString(s_right) => Ok(Self::VString(format!("{}{}", s_left, s_right))),
+                Self::VString(s_right) => {
+                    if s_left.len() + s_right.len() > MAX_STRING_LENGTH {
+                        Err(VariantError::OutOfStringSpace)
+                    } else {
+                        Ok(Self::VString(format!("{}{}", s_left, s_right)))
+                    }
+                }
                 _ => Err(VariantError::TypeMismatch),
             },
             Self::VInteger(i_left) => match other {
